@@ -23,7 +23,9 @@
 (* sets by the harness (pattern-traces), whose runs the monitor validates. *)
 (***************************************************************************)
 EXTENDS Integers, Sequences, FiniteSets, TLC, Json
-CONSTANTS FixTop, AllowAlias
+CONSTANTS FixTop, AllowAlias,
+          Ext       \* FALSE: the base patterns (the writer only assigns); TRUE: the writer's action list also calls Complete() or
+                    \* Retract(itself) before the assignment and / or re-reads the reader's condition after it
 
 Paths == {"N","X","I","A0","AI"}            \* variable nodes usable in expressions
 Locs  == {"N","X","I","A0","A1","Y"}         \* memory locations
@@ -46,11 +48,14 @@ EVars(e) == CASE e.k = "a" -> VarsOf(e.p) [] e.k = "not" -> EVars(e.l) [] OTHER 
 
 \* rhs: "c" = constant, or a path that is read
 Rhs == {"c","X","AI"}
-Writer == [w : Atom, t : Paths, rhs : Rhs]
+\* ctl: a control call placed before the assignment; post: a further action  F.C = <the reader's condition>  after it
+Writer == IF ~Ext THEN [w : Atom, t : Paths, rhs : Rhs, ctl : {"none"}, post : {FALSE}]
+          ELSE {x \in [w : {[k |-> "a", p |-> "X"]}, t : Paths, rhs : Rhs, ctl : {"none", "complete", "retract"}, post : BOOLEAN] :
+                  x.ctl # "none" \/ x.post}
 Reader == [w : Conds]
 
-VARIABLES W, R, sel, memo, dirty, bad, cyc
-vars == <<W, R, sel, memo, dirty, bad, cyc>>
+VARIABLES W, R, sel, memo, dirty, bad, cyc, wRet, ended
+vars == <<W, R, sel, memo, dirty, bad, cyc, wRet, ended>>
 
 RhsNode(r) == IF r = "c" THEN {} ELSE {[k |-> "a", p |-> r]}
 Nodes == Subs(W.w) \cup Subs(R.w) \cup RhsNode(W.rhs)
@@ -86,12 +91,16 @@ Aliasing(w, r) == LET ps == {p \in Paths : UsesPath(w.w, p) \/ UsesPath(r.w, p) 
 Init == /\ W \in Writer /\ R \in Reader /\ sel \in {0,1}
         /\ (AllowAlias \/ ~Aliasing(W, R))
         /\ memo = [n \in Nodes |-> "u"] /\ dirty = [n \in Nodes |-> FALSE]
-        /\ bad = FALSE /\ cyc = 0
+        /\ bad = FALSE /\ cyc = 0 /\ wRet = FALSE /\ ended = FALSE
 
-Cycle(tr, wFirst, newSel) ==
-  LET E1 == IF wFirst THEN ME(W.w, tr, memo, dirty, FALSE) ELSE ME(R.w, tr, memo, dirty, FALSE)
-      E2 == IF wFirst THEN ME(R.w, tr, E1.m, E1.d, E1.b) ELSE ME(W.w, tr, E1.m, E1.d, E1.b)
-      wCan == IF wFirst THEN E1.v ELSE E2.v
+Cycle(tr, tr2, wFirst, newSel) ==
+  LET same == [v |-> FALSE, m |-> memo, d |-> dirty, b |-> FALSE]
+      \* a retracted writer is not evaluated any more
+      E1 == IF wRet THEN ME(R.w, tr, memo, dirty, FALSE)
+            ELSE IF wFirst THEN ME(W.w, tr, memo, dirty, FALSE) ELSE ME(R.w, tr, memo, dirty, FALSE)
+      E2 == IF wRet THEN E1
+            ELSE IF wFirst THEN ME(R.w, tr, E1.m, E1.d, E1.b) ELSE ME(W.w, tr, E1.m, E1.d, E1.b)
+      wCan == ~wRet /\ (IF wFirst THEN E1.v ELSE E2.v)
   IN /\ cyc' = cyc + 1
      /\ IF wCan
         THEN \* fire writer: evaluate rhs (memoized), write target, dirty readers, reset by containment
@@ -100,11 +109,19 @@ Cycle(tr, wFirst, newSel) ==
               s2  == IF W.t = "I" THEN newSel ELSE sel
               d2  == [n \in Nodes |-> E3.d[n] \/ (E3.m[n] # "u" /\ loc \in NLocs(n, sel))]
               m2  == [n \in Nodes |-> IF ResetKey(W.t) \in EVars(n) THEN "u" ELSE E3.m[n]]
-          IN memo' = m2 /\ dirty' = d2 /\ sel' = s2 /\ bad' = (bad \/ E3.b)
-        ELSE memo' = E2.m /\ dirty' = E2.d /\ sel' = sel /\ bad' = (bad \/ E2.b)
+              \* the further action reads the reader's condition through the same memo; atoms that do not read the written
+              \* location keep their truth
+              okTr2 == \A a \in AtomsIn : (loc \notin ReadLocs(a.p, s2) /\ (W.t # "I" \/ a.p # "AI")) => tr2[a] = tr[a]
+              E4  == IF W.post THEN ME(R.w, tr2, m2, d2, E3.b) ELSE [v |-> FALSE, m |-> m2, d |-> d2, b |-> E3.b]
+          IN /\ (W.post => okTr2) /\ (~W.post => tr2 = tr)
+             /\ memo' = E4.m /\ dirty' = E4.d /\ sel' = s2 /\ bad' = (bad \/ E4.b)
+             /\ wRet' = (wRet \/ W.ctl = "retract") /\ ended' = (W.ctl = "complete")
+        ELSE /\ tr2 = tr
+             /\ memo' = E2.m /\ dirty' = E2.d /\ sel' = sel /\ bad' = (bad \/ E2.b) /\ UNCHANGED <<wRet, ended>>
      /\ UNCHANGED <<W, R>>
 
-Next == cyc < 3 /\ \E tr \in [AtomsIn -> BOOLEAN], wf \in BOOLEAN, ns \in {0,1} : Cycle(tr, wf, ns)
+Next == cyc < 3 /\ ~ended /\ \E tr \in [AtomsIn -> BOOLEAN], wf \in BOOLEAN, ns \in {0,1} :
+                                    \E tr2 \in (IF W.post THEN [AtomsIn -> BOOLEAN] ELSE {tr}) : Cycle(tr, tr2, wf, ns)
 Spec == Init /\ [][Next]_vars
 MemoSound == ~bad
 
